@@ -553,9 +553,17 @@ class DistErlang(DistContinuous):
     def probability_density(self, x: float) -> float:
         """Returns the probability density value for value x."""
         if x >= 0:
-            return (self._lambda * math.exp(-self._lambda * x) 
-                    * (self._lambda * x) ** (self._k - 1) 
-                    / math.factorial(self._k - 1))
+            try:
+                return (self._lambda * math.exp(-self._lambda * x) 
+                        * (self._lambda * x) ** (self._k - 1) 
+                        / math.factorial(self._k - 1))
+            except OverflowError:
+                # large k: (lambda x)^(k-1) or (k-1)! exceed the float range
+                if self._lambda * x == 0:
+                    return 0.0
+                return math.exp(math.log(self._lambda) - self._lambda * x
+                                +(self._k - 1) * math.log(self._lambda * x)
+                                -math.lgamma(self._k))
         return 0.0
 
     @property
